@@ -18,10 +18,12 @@ package verifnode
 //     name-sender transaction admitted to the pool BEFORE a handover is delivered in a block AFTER the handover.
 
 import (
+	"bytes"
 	"encoding/hex"
 	"fmt"
 	"os"
 	"sort"
+	"sync/atomic"
 	"time"
 
 	"github.com/aergoio/aergo/v2/consensus/impl/dpos"
@@ -82,6 +84,49 @@ type ldgCrafted struct {
 	full       bool   // the producing executor took every transaction
 }
 
+// ---- watchdog
+
+var (
+	ldgProgress atomic.Int64
+	ldgPhase    atomic.Value
+)
+
+// ldgTick records that the harness got somewhere (and where).
+func ldgTick(phase string) {
+	ldgPhase.Store(phase)
+	ldgProgress.Add(1)
+}
+
+// ldgWatchdog ends the process when the harness made no step for minutes: the results reached so far are written
+// first (a violation found before the node under test blocked keeps its verdict; without one the check reports an
+// infrastructure failure, with the phase the run was stuck in).
+func ldgWatchdog(stop chan struct{}, res *verifkit.Result, trace *bytes.Buffer) {
+	limit := 6 * time.Minute
+	last, since := int64(-1), time.Now()
+	for {
+		select {
+		case <-stop:
+			return
+		case <-time.After(5 * time.Second):
+		}
+		if cur := ldgProgress.Load(); cur != last {
+			last, since = cur, time.Now()
+			continue
+		}
+		if time.Since(since) < limit {
+			continue
+		}
+		phase, _ := ldgPhase.Load().(string)
+		res.Note("WATCHDOG: no step for %s, stuck in: %s", limit, phase)
+		fmt.Printf("WATCHDOG: the ledger harness made no step for %s; stuck in: %s\n", limit, phase)
+		if tp := os.Getenv("VERIF_TRACE"); tp != "" {
+			_ = os.WriteFile(tp, trace.Bytes(), 0o644)
+		}
+		_ = res.Write()
+		os.Exit(3)
+	}
+}
+
 // nsCount counts an evaluation (and shows it when debugging).
 func nsCount(res *verifkit.Result) func(string) {
 	return func(k string) {
@@ -126,7 +171,7 @@ func (w *ldgWorld) craft(ts int64, what string, specs []ldgCraftTx) *ldgCrafted 
 			}
 			if s.nonce != cur+1 {
 				if why == "" {
-					why = fmt.Sprintf("a transaction executed for %s with nonce %d (next nonce %d)", exe, s.nonce, cur+1)
+					why = fmt.Sprintf("a transaction that is to be executed for %s (the account its sender stands for at the start of the block) with nonce %d, whose next nonce is %d", exe, s.nonce, cur+1)
 				}
 				continue
 			}
@@ -183,6 +228,7 @@ func (w *ldgWorld) craftNameBlocks(ts int64) []*ldgCrafted {
 	nO := w.nonceOf(O)
 	var out []*ldgCrafted
 	add := func(what string, specs ...ldgCraftTx) {
+		ldgTick("crafting " + what)
 		if c := w.craft(ts+int64(len(out)), what, specs); c != nil {
 			out = append(out, c)
 		}
@@ -216,7 +262,8 @@ func (w *ldgWorld) craftNameBlocks(ts int64) []*ldgCrafted {
 
 // deliverCrafted hands the crafted blocks to the validator v (whose best block is their parent).
 func (w *ldgWorld) deliverCrafted(v *Node, crafted []*ldgCrafted, count func(string), voting bool, violate func(map[string]interface{}, string, ...interface{})) {
-	for _, c := range crafted {
+	for i, c := range crafted {
+		ldgTick(fmt.Sprintf("validator, crafted name-sender block %d %s", i, c.what))
 		if !c.mustReject {
 			// a block the specification allows: only counted (verify-only, the validator's chain does not move)
 			err := v.CS.VerifVerifyBlock(CloneBlock(c.blk))
@@ -270,6 +317,7 @@ func (w *ldgWorld) poolHit(ts int64, count func(string), violate func(map[string
 	if kmin > 4 {
 		return
 	}
+	ldgTick("pool-hit scenario")
 	best := n.Best()
 	// T's nonce: the next nonce of X after the handover block (which carries k transfers of X); for O it is a future nonce
 	// now and at least the next one then.  (O may have left-overs in the pool: a nonce that is taken there is skipped.)
@@ -335,6 +383,7 @@ func (w *ldgWorld) poolHit(ts int64, count func(string), violate func(map[string
 			inPool = true
 		}
 	}
+	ldgTick("pool-hit scenario: delivering the block")
 	err = n.Deliver(kb)
 	after := fmt.Sprint(n.DumpState(n.CS.SDB().GetRoot()))
 	count(fmt.Sprintf("poolhit|%s|delivered|in-pool-%v|connected-%v", w.regime.Name, inPool, err == nil && n.Best().ID() == kb.ID()))
